@@ -115,8 +115,23 @@ func genAuthReq(t *sim.Tape, pw string, cid int, i int) authReq {
 }
 
 type authConn struct {
-	c    *client
+	c    *client    // plain-port connection, or
+	tc   *tlsClient // TLS-port connection (real crypto/tls client, lock-step)
 	reqs []authReq
+}
+
+func (ac *authConn) vals() []resp.Value {
+	if ac.tc != nil {
+		return ac.tc.Vals
+	}
+	return ac.c.Vals
+}
+
+func (ac *authConn) pipe() *sim.Pipe {
+	if ac.tc != nil {
+		return ac.tc.P
+	}
+	return ac.c.P
 }
 
 // modelAt folds the connection's history up to (excluding) request idx.
@@ -125,8 +140,8 @@ func (ac *authConn) modelAt(idx int, o *Outcome) (authorized bool, db int, cfg m
 	for i := 0; i < idx && i < len(ac.reqs); i++ {
 		r := ac.reqs[i]
 		var reply *resp.Value
-		if i < len(ac.c.Vals) {
-			reply = &ac.c.Vals[i]
+		if vs := ac.vals(); i < len(vs) {
+			reply = &vs[i]
 		}
 		ok := reply != nil && reply.Equal(resp.St("OK"))
 		switch {
@@ -152,6 +167,16 @@ func runC08(t *testing.T, tape *sim.Tape, tier string) *Outcome {
 	pw := pws[tape.Draw(len(pws), "pw")]
 	d := &wl.Double{}
 	cl.useServer(d)
+	// a quarter of the runs also open the TLS port (no certificate rule): the password gate is the same there
+	withTLS := tape.Draw(4, "tlsport") == 3
+	pki := wl.GetPKI()
+	if withTLS {
+		cl.Srv.SetTLSPort(tlsPort)
+		cl.Srv.ServerCert = pki.Server.CertPEM
+		cl.Srv.ServerKey = pki.Server.KeyPEM
+		cl.Srv.CACerts = pki.CA.CertPEM
+		o.stat("runs_with_tls_port", 1)
+	}
 	viaRestart := tape.Draw(4, "viarestart") == 0
 	cl.Sticky = tape.Draw(4, "sticky")
 	addr := addrOf(plainPort)
@@ -169,8 +194,10 @@ func runC08(t *testing.T, tape *sim.Tape, tier string) *Outcome {
 		if ac == nil {
 			return // an earlier generation's connection (no password then)
 		}
-		ac.c.collect()
-		idx := len(ac.c.Vals)
+		if ac.c != nil {
+			ac.c.collect()
+		}
+		idx := len(ac.vals())
 		authorized, db, _ := ac.modelAt(idx, o)
 		cl.S.Logf(call.CID, "handler %s (request %d)", call.Method, idx)
 		if !authorized {
@@ -231,6 +258,13 @@ func runC08(t *testing.T, tape *sim.Tape, tier string) *Outcome {
 			ac.reqs = append(ac.reqs, r)
 			items = append(items, resp.Ar(r.Args...).Encode())
 		}
+		if withTLS && tape.Draw(2, "viatls") == 1 {
+			ac.tc = cl.addTLSClient(fmt.Sprintf("tcli%d", j), addrOf(tlsPort), pki.ClientConfig(pki.Right), items)
+			ac.tc.Chunk = tape.Draw(3, "chunkmode")
+			o.stat("connections_on_tls_port", 1)
+			order = append(order, ac)
+			continue
+		}
 		c := cl.addClient(fmt.Sprintf("cli%d", j), addr, items)
 		c.Lockstep = tape.Draw(3, "lockstep") != 0
 		c.Chunk = tape.Draw(4, "chunkmode")
@@ -239,25 +273,29 @@ func runC08(t *testing.T, tape *sim.Tape, tier string) *Outcome {
 	}
 	bind := func() {
 		for _, ac := range order {
-			if ac.c.P != nil {
-				conns[fmt.Sprintf("c%d", ac.c.P.ID)] = ac
+			if p := ac.pipe(); p != nil {
+				conns[fmt.Sprintf("c%d", p.ID)] = ac
 			}
 		}
 	}
 	budget := 2000
 	for _, ac := range order {
-		budget += 60 * len(ac.c.stream)
+		if ac.c != nil {
+			budget += 60 * len(ac.c.stream)
+		} else {
+			budget += 3000
+		}
 	}
 	cl.run(budget, bind, nil)
 	cl.collectAll()
 	// reply-side rules over the complete histories
 	if len(o.Viol) == 0 {
 		for j, ac := range order {
-			if ac.c.BadReply != nil {
+			if ac.c != nil && ac.c.BadReply != nil {
 				o.violate("c08:reply-stream", "connection %d: %v", j, ac.c.BadReply)
 				continue
 			}
-			for i, v := range ac.c.Vals {
+			for i, v := range ac.vals() {
 				r := ac.reqs[i]
 				authorized, _, cfg := ac.modelAt(i, o)
 				where := fmt.Sprintf("connection %d request %d (%s), password %q, history %v", j, i, r.Desc, pw, histOf(ac, i))
@@ -282,8 +320,11 @@ func runC08(t *testing.T, tape *sim.Tape, tier string) *Outcome {
 					}
 				}
 			}
-			if len(ac.c.Vals) < len(ac.reqs) && !ac.c.SrvClosed {
+			if ac.c != nil && len(ac.c.Vals) < len(ac.reqs) && !ac.c.SrvClosed {
 				o.violate("c08:no-reply", "connection %d: %d replies for %d requests", j, len(ac.c.Vals), len(ac.reqs))
+			}
+			if ac.tc != nil && len(ac.tc.Vals) < len(ac.reqs) && ac.tc.IOErr == nil {
+				o.violate("c08:no-reply", "TLS connection %d: %d replies for %d requests (handshake ok %t, err %v)", j, len(ac.tc.Vals), len(ac.reqs), ac.tc.HandshakeOK, ac.tc.HandshakeErr)
 			}
 		}
 	}
@@ -302,8 +343,8 @@ func histOf(ac *authConn, upto int) []string {
 	var h []string
 	for i := 0; i < upto && i < len(ac.reqs); i++ {
 		s := ac.reqs[i].Desc
-		if i < len(ac.c.Vals) {
-			s += " -> " + ac.c.Vals[i].String()
+		if vs := ac.vals(); i < len(vs) {
+			s += " -> " + vs[i].String()
 		}
 		h = append(h, clipS(s, 100))
 	}
@@ -314,7 +355,7 @@ func init() {
 	register(&Check{
 		ID: "C08", Bubble: true, Run: runC08,
 		Runs:   map[string]int{"quick": 30000, "thorough": 1000000},
-		Rule:   "a case is one run of the full server with a required password (set before Start, or by Restart after a password-less generation) and 1..3 connections each sending 1..8 (thorough ..16) requests over {AUTH with the exact password, with each dictionary candidate ('' , prefixes, extension, case swap, NUL/CRLF/space variants, doubled), null/missing argument, two-argument forms, SELECT, CONFIG SET/GET, PING/ECHO, data commands} under a seeded request- and byte-granularity interleaving; a per-connection authorization model is checked inside every handler call and over every reply; distinct = distinct event-log hashes; all runs non-trivial",
+		Rule:   "a case is one run of the full server with a required password (set before Start, or by Restart after a password-less generation) and 1..3 connections (in a quarter of the runs the TLS port is open too and each connection goes through it with probability 1/2, as a real crypto/tls client with an accepted certificate) each sending 1..8 (thorough ..16) requests over {AUTH with the exact password, with each dictionary candidate ('' , prefixes, extension, case swap, NUL/CRLF/space variants, doubled), null/missing argument, two-argument forms, SELECT, CONFIG SET/GET, PING/ECHO, data commands} under a seeded request- and byte-granularity interleaving; a per-connection authorization model is checked inside every handler call and over every reply; distinct = distinct event-log hashes; all runs non-trivial",
 		Real:   []string{"redis.Server Start (authenticator registration), accept loop, connection goroutines, AUTH executor, Server.Auth, auth.AuthManager, ClearTextPasswordAuthenticator, gate in executeCommand"},
 		Stub:   []string{"network: simulated", "user command handler: recording double (parks at entry)"},
 		Assume: []string{"two-argument AUTH with user '' or 'default' and the exact password may succeed or fail", "QUIT before authorization is not generated"},
